@@ -109,7 +109,7 @@ pub fn run_guarded(engine: &mut dyn Engine, prop: &str, case: &Value) -> Outcome
         Ok(o) => o,
         Err(p) => {
             let m = panic_message(p);
-            let loc = crate::last_panic_location();
+            let loc = crate::panic_location_for(&m);
             Outcome {
                 violation: Some(Violation::new(
                     format!("panic@{}", loc),
